@@ -1265,8 +1265,9 @@ func (g *G) genIface(cfgSkipEnsure bool) *Iface {
 			if g.Chance(30) {
 				name = g.freshMethod()
 			}
-			if g.inPlace && !g.P.ExecSafe && g.Chance(4) {
+			if g.inPlace && g.Chance(6) {
 				name = LowerFirst(name)
+				g.label("method:unexported")
 			}
 			if !it.AllMeths[name] {
 				break
